@@ -1083,7 +1083,9 @@ def parse(
             conn.commit()
         try:
             tree = pickle.loads(pickled_data)
-        except pickle.UnpicklingError:
+        except Exception:
+            # Besides UnpicklingError, a damaged entry can raise e.g. EOFError,
+            # AttributeError, ImportError, IndexError or ValueError.
             logger.warning(f"Model with hash '{txt_hash}' ({pymoca_version}) failed to unpickle")
     else:
         logger.debug(f"Model with hash '{txt_hash}' ({pymoca_version}) not in cache")
